@@ -29,7 +29,7 @@ Definition p_inv := PAnd (PNot (PCmp ["a"; "b"] CEq (KNum 8))) (PCmp ["d"] CEq (
 Example inverted_merge_refuted :
   exists q, compile current p_inv = Ok q /\ wf_fit f0 = true /\ sem q f0 = true /\ eval p_inv f0 = false.
 Proof. eexists. vm_compute. repeat split. Qed.
-Example inverted_merge_guard : safe current p_inv = false /\ safe_with repaired false true true p_inv = true.
+Example inverted_merge_guard : safe current p_inv = false /\ safe_with repaired false true true true p_inv = true.
 Proof. vm_compute. split; reflexivity. Qed.
 Example inverted_merge_repaired :
   exists q, compile repaired p_inv = Ok q /\ sem q f0 = false /\ sem q f1 = false.
@@ -51,6 +51,18 @@ Definition p_ninfo := PNot (PInfo "k" "v").
 Example not_info_refuted :
   exists q, compile current p_ninfo = Ok q /\ wf_fit f2 = true /\ sem q f2 = false /\ eval p_ninfo f2 = true.
 Proof. eexists. vm_compute. repeat split. Qed.
+
+(* ~(unique_tag == "t") on a fit whose unique_tag is NULL: not (NULL = 't') is NULL *)
+Definition f_null := mkFit "fn" (OInst "c10_classes.Root" [("a", OVal 8)]) [("name", Some "fn"); ("unique_tag", None)]
+                           [("max_log_likelihood", 8%Z)] [("is_complete", true)] [] false.
+Definition p_nattr := PNot (PAttr (AEqS "unique_tag" (Some "t"))).
+Example not_attr_null_refuted :
+  exists q, compile current p_nattr = Ok q /\ wf_fit f_null = true /\ sem q f_null = false /\ eval p_nattr f_null = true.
+Proof. eexists. vm_compute. repeat split. Qed.
+Example not_attr_guards :
+  safe current p_nattr = false /\ safe_with current true true true false p_nattr = true /\
+  attrs_defined f_null = false /\ forallb attrs_defined db5 = true.
+Proof. vm_compute. repeat split. Qed.
 
 (* ~((a.b == 1) | (d == 1)): TypeError;  (d == 1.0) | (d == "x"): AssertionError *)
 Definition p_notj := PNot (POr (PCmp ["a"; "b"] CEq (KNum 8)) (PCmp ["d"] CEq (KNum 8))).
